@@ -1644,7 +1644,8 @@ impl<'a> Gen<'a> {
         let depth = self.rng.urange(0, 1);
         let (name, mut parent) = self.gen_bucket_branch(branch, depth, top);
         let composite = matches!(parent, Agg::Composite { .. });
-        let sub = if self.rng.chance(1, 4) {
+        // top_hits keeps per bucket state of its own kind (a heap per bucket): a third of the subs
+        let sub = if self.rng.chance(1, 3) {
             self.gen_metric_branch(3, None)
         } else {
             self.gen_sub_uniform(!composite, 1)
